@@ -233,11 +233,14 @@ def finish(result: Result, tier: str, seed: int, t0: float, evidence_dir: Option
         json.dump(evidence, stream, indent=1, sort_keys=False)
         stream.write("\n")
 
-    if result.errors:
+    if result.errors and not violations:
         for e in result.errors:
             print(f"ANALYSIS-ERROR property={prop} reason={e}")
         return 2
     if violations:
+        # a violation that WAS found stands, even if another rule lost its anchor on the same tree (reported alongside)
+        for e in result.errors:
+            print(f"ANALYSIS-ERROR property={prop} reason={e}")
         os.makedirs(out_dir, exist_ok=True)
         replay = os.path.join(out_dir, f"{prop}.json")
         with open(replay, "w", encoding="utf-8") as stream:
